@@ -45,7 +45,7 @@ for pid in sorted(P):
     })
 m = {
  "version": 1,
- "setup_cmd": "cd /verif/harness && CARGO_NET_OFFLINE=true cargo build --offline --release && CARGO_NET_OFFLINE=true cargo build --offline --profile nocheck",
+ "setup_cmd": "cd /verif/harness && CARGO_NET_OFFLINE=true cargo build --offline --release && CARGO_NET_OFFLINE=true cargo build --offline --profile nocheck && cd /verif/xcheck && CARGO_NET_OFFLINE=true cargo build --offline --release",
  "hooks": {
    "guard": "ppp_verif",
    "enable": "no hooks are needed: every observation goes through the public API (parser results, accessors, Debug of Builder / TypeLengthValues); the harness depends on /repo as a path dependency and cargo rebuilds it from the current working tree",
@@ -54,6 +54,7 @@ m = {
    "add_only": True,
  },
  "engines": [
+   {"name": "ppp-xcheck", "path": "/verif/xcheck", "serves_properties": ["C09", "C10"], "kind_free_text": "stateright 0.31 BFS checker over the same real-Builder transition function: independent second explorer whose unique-state count and verdict must equal the hand-rolled BFS (disagreement = machinery error)"},
    {"name": "ppp-mc", "path": "/verif/harness", "serves_properties": sorted(P), "kind_free_text": "Rust harness: deviation/depth-bounded exhaustive input-tree exploration and explicit-state BFS over real objects, against independent reference models; rayon-parallel, deterministic, no sampling"},
  ],
  "checks": checks,
